@@ -87,6 +87,12 @@ def work(tier, seed):
                     # state dtypes: float32 factors (default) or float64 factors / float64 parameters
                     dts = [("f32", "f32"), ("f32", "f64"), ("f64", "f64")][i % 3]
                     units.append({"kind": "hybrid", "pset": ps, "R": R, "S": S, "g": g, "comm": comm, "cp": cp, "cfg_kw": dict(oc, pdtype=dts[0], prec_dtype=dts[1]), "hists": h2 if tier == "thorough" else h2[(i % 3) :: 3], "seed": seed})
+    # bfloat16 parameters with full-precision communication and blocks of more than 16 elements (the gather slots
+    # must be sized in the communication dtype)
+    for (R, S) in [(2, 1), (2, 2), (3, 1)]:
+        for comm, cp in itertools.product(["FP32", "BF16"], [False, True]):
+            units.append({"kind": "hybrid", "pset": [[12], [6, 5], [4, 2]], "R": R, "S": S, "g": -1, "comm": comm, "cp": cp, "cfg_kw": dict(opt_cfgs()[1], pdtype="bf16", prec_dtype="f32", max_dim=8),
+                          "hists": h2[:: (9 if tier == "quick" else 2)], "seed": seed})
     core = [[[1, 1, 1], [1, 1, 1]], [[1, 1, 1], [1, 0, 1]], [[0, 0, 1], [1, 1, 0]], [[0, 1, 0], [0, 0, 0]]]
     bound = 1 if tier == "quick" else 2
     for (R, S, g) in [(2, 1, 2), (2, 2, 2), (2, 2, 1)]:
@@ -107,7 +113,7 @@ def local_twin(unit, srank, hist):
         if b > a:
             shapes.append([b - a] + list(shp[1:]))
             idx.append((pi, a, b))
-    cfg = seq.cfg_with(shapes=shapes, max_dim=3, merge=True, seed=seed, **unit["cfg_kw"])
+    cfg = seq.cfg_with(**dict(dict(shapes=shapes, max_dim=3, merge=True, seed=seed), **unit["cfg_kw"]))
     params = []
     for (pi, a, b), s in zip(idx, shapes):
         full = torch.tensor(seq.init_param(pi, tuple(unit["pset"][pi]), seed), dtype=PDT(unit)).reshape(unit["pset"][pi])
@@ -171,7 +177,7 @@ def program(unit, hist):
         for pi, shp in enumerate(unit["pset"]):
             full = torch.tensor(seq.init_param(pi, tuple(shp), seed), dtype=PDT(unit)).reshape(shp)
             params.append(torch.nn.Parameter(mk(full, shp)))
-        cfg = seq.cfg_with(shapes=[[1]], max_dim=3, merge=True, seed=seed, **unit["cfg_kw"])
+        cfg = seq.cfg_with(**dict(dict(shapes=[[1]], max_dim=3, merge=True, seed=seed), **unit["cfg_kw"]))
         opt = DistributedShampoo(params, distributed_config=dc, **seq.ctor_kwargs(cfg))
         out = []
         for t, mask in enumerate(hist):
@@ -198,9 +204,9 @@ def compare_local(got_steps, twin_steps, what):
                 return [f"{what}: parameter {pi} has a non-empty local shard unknown to the twin"]
             y = w[pi]
             if not torch.equal(x, y):
-                scale = max(y.abs().max().item(), 1e-30)
-                err = (x - y).abs().max().item() / scale if x.shape == y.shape else float("inf")
-                u = 2.0 ** -53 if x.dtype == torch.float64 else common.UNIT["f32"]
+                scale = max(y.double().abs().max().item(), 1e-30)
+                err = (x.double() - y.double()).abs().max().item() / scale if x.shape == y.shape else float("inf")
+                u = 2.0 ** -53 if x.dtype == torch.float64 else (common.UNIT["bf16"] if x.dtype == torch.bfloat16 else common.UNIT["f32"])
                 if not err <= 16 * u:
                     return [f"{what}: local shard of parameter {pi} differs from the serial optimizer on that local tensor after step {t} (rel diff {err:.2e})"]
     return []
